@@ -1,7 +1,7 @@
 """C02 — write then read round-trips records unchanged (FASTA/FASTQ + JSON title-line header)."""
 import json, base64, math, struct, os, subprocess
 
-PROPS = ["C02/Props.v"]
+PROPS = ["C02/Props.v", "C02/Props3.v"]
 META = dict(
     text="Rocq theorems over an executable model of the title-line machinery. Round 2: the JSON decoder is inside the model (an executable parser jparse: white space, "
          "every escape incl. surrogate pairs, number tokens checked against go-json's grammar) and is proved to invert the marshaller on every well-formed value with valid-UTF-8 strings, so the header, "
@@ -26,7 +26,19 @@ META = dict(
          "Not modelled: the OBI-style header parser beyond the empty definition (guessed parser on a title not starting with a brace), a non-string 'definition' member followed by text, "
          "raw NUL in strings (go-json refuses it). Numbers beyond the float64 range: the real reader dies (ParseFloat), the model's jdec keeps the token; the correspondence accepts a dead reader "
          "exactly when a number token of the title line is beyond the range (tok_finite), so the float64 theorems speak of title lines whose numbers are finite float64s. The chunk splitter belongs to C01 (exercised through obiconvert). Quality offsets on the command line: only --solexa "
-         "(input 64) exists; output 64 is reachable programmatically only and is covered through the library calls. Defect fixed in round 1: escaped quotes in the title-line scanner.")
+         "(input 64) exists; output 64 is reachable programmatically only and is covered through the library calls. Defect fixed in round 1: escaped quotes in the title-line scanner. "
+         "Round 3, outside the property: (a) the int/float64 NATURE of a number: the float64 -> int block of _parse_json_header_ is a dead store, every number read is a float64; by value nothing "
+         "changes (all typed numeric getters agree, the text is identical) but fmt.Sprint / GetStringAttribute print 1000000 as 1e+06 after the read (counted in coverage.round3_distribution.int_nature; a "
+         "repair that stores ints stays silent here); (b) quality offsets outside 14..172 (0: scores 10 and 13 become LF / CR) - no command-line option reaches them; proved to fail, model and code compared; "
+         "the domain is exact: C02_fastq_roundtrip_wide proves the round trip through the chunk parser for 14..172 (Props.v states 33..162, where a quality character is no blank either), "
+         "C02_fastq_shift_domain_exact_upto_256 that it holds for no other offset; (c) the FASTQ reader does not check the FIRST nucleotide symbol of a "
+         "record (the FASTA reader does): model transcribes it; (d) an input file named twice on the command line is read once (the file list is a set). "
+         "Not exercised: ReadFastaFromStdin / ReadFastqFromStdin (no caller in the toolkit: standard input goes through ReadSequencesFromStdin, which the stdin jobs run); FormatFasta on a nil record or "
+         "a record without nucleotides called directly (the batch formatters never do); the 'sequence is empty' / 'quality is empty' guards of the chunk parsers (unreachable: the automata reach them "
+         "with at least one symbol); EndOfLastFastqEntry's restart branches (C01's splitter; run here only through the 2.6 MB command-line inputs); in biosequence.go Recycle, MD5, Composition, Grow, "
+         "SameAs, Features/SetFeatures, Source, LogBioSeqStatus and in attributes.go DeleteAttribute / RenameAttribute (no part in writing or reading a record: C05/C07/C16); in goutils.go "
+         "InterfaceToFloat64Map/Slice (no getter of the record uses them), ReadLines, AtomicCounter, the reflect helpers other than IsAMap/IsASlice/IsAnArray; in options.go the help / version / "
+         "pprof / debug branches and the programmatic setters.")
 TRUSTED = ["go-json decoder/encoder vs the model's jparse / jdec renum64 / ser: tied by correspondence on every generated value, record and free-style title line (CSer, CDec, CHdr), not by proof; "
            "on free text one direction only (model accepts => go-json accepts, same annotations)",
            "number path: renum64 transcribes ParseFloat (nearest float64, ties to even, subnormals) and go-json's AppendFloat64 (shortest digits that read back, 'e' layout below 1e-6 and from 1e21) "
@@ -34,7 +46,30 @@ TRUSTED = ["go-json decoder/encoder vs the model's jparse / jdec renum64 / ser: 
            "taken from strconv's contract; tokens beyond the float64 range (the reader dies) are left unchanged by the model",
            "strings.TrimSpace is modelled for ASCII blanks and the Unicode White_Space runes in UTF-8; UTF-8 validation of the marshaller is transcribed from Go's acceptance ranges "
            "(compared with go-json on random invalid byte strings on every run)",
-           "ParseFastSeqOBIHeader is modelled only on the empty definition (does nothing)"]
+           "ParseFastSeqOBIHeader is modelled only on the empty definition (does nothing)",
+           "round 3: typed getters: Model3.v transcribes InterfaceToInt/Float64/Bool/IntMap/StringMap/IntSlice and OBITagRefIndex on values decoded from JSON (float64 numbers, "
+           "map[string]interface, []interface); fmt.Sprint of non-string values is not modelled (NotModelled answers are not compared); Go's int(float64) outside the int64 range is "
+           "implementation-defined: not compared. File-level writers: the model knows truncate / append and the batch order, not the goroutines (C04). gzip is the harness's compress/gzip "
+           "and Python's gzip reading what pgzip wrote"]
+META["text"] += (" Round 3 (coverage-driven): the typed getters of pkg/obiseq/attributes.go and the converters of pkg/obiutils/goutils.go behind them (GetInt/Float/Numeric/Bool/String"
+           "Attribute, GetIntMap, GetStringMap, GetIntSlice, OBITagRefIndex, OBITagGeomRefIndex, Count, Taxid, GetLandmarkID, GetCoordinate, Keys, AttributeKeys, Definition, String, Len) are "
+           "called on every record BEFORE the write and AFTER the read (each on a Copy of the record): the oracle demands the written value from both (numbers by value: an int "
+           "written comes back from GetIntAttribute as that int, a map[string]int from GetIntMap, a []int from GetIntSlice, a map[int]string from OBITagRefIndex), and the model "
+           "(Model3.v: getters over the decoded JSON value with float64 numbers) is compared on the re-read record; theorems: the integer getter returns every written integer "
+           "|x| <= 2^53 (sharp), also inside maps and lists, Count(), and at record level through write + read (FASTA/FASTQ, json/guessed). Records are built along six construction "
+           "paths (constructor, constructor with qualities, byte-wise Write/WriteByte/WriteString/WriteQualities, the same after Clear/ClearQualities, everything through SetAttribute and "
+           "the toolkit's setters incl. id/sequence/qualities in their three forms, Copy); the one-by-one formatters FormatFasta/FormatFastq and WriteFastSeqJsonHeader must agree with the "
+           "batch formatters; FASTQ records without qualities (default 40), batches holding a record without nucleotides (skipEmpty: left out, proved never to refuse; otherwise refused, "
+           "never a silent loss), 150-record batches, 5 kb sequences and title lines beyond bufio's buffer. Text NOBODY formatted (CR LF, CR, tabs, blank lines, other line widths, blanks "
+           "inside FASTA sequence lines, upper case, no final line end, identifier-only title lines, free-style JSON or plain text as title remainder) goes through reader -> writer -> "
+           "reader -> writer: records as intended, second write byte-identical, model = code; texts with one defect (no marker, no identifier, bad symbol, '>' inside a sequence, quality "
+           "line of another length, no '+' line, junk between records) must be refused and the model must refuse them too (theorem: a quality line of another length is refused). "
+           "Quality-offset HISTORIES inside one process (33, 64, 33, 64; ends of the working domain 14 / 172; offsets outside it, where model and code must fail alike; theorems: the round trip holds for the offsets 14..172 and for no other). File level: WriteFastaToFile / WriteFastqToFile (truncate vs append over an old file, gzip, any batch size and worker count) "
+           "-> bytes of the file = text judged in process (theorem C02_file_content) -> ReadFastaFromFile / ReadFastqFromFile with the header parser as option -> same records. "
+           "Command level (obiconvert, 15 jobs per format, always against the text judged in process): --fasta/--fastq + --fasta-output/--fastq-output to a file and to stdout, "
+           "--output-json-header, stdin, --compress then reading the .gz, --paired-with (both output files), three input files, --no-order (records as a multiset), --force-one-cpu, "
+           "--max-cpu 1/8 with --batch-size 1/7, inputs of 2.6 MB (beyond the 1 MiB read buffer: several chunks and worker batches), an output file that must be truncated, an empty input.")
+
 
 SPECIALS = ['"', '\\', '{', '}', ';', '=', '>', '@', '+', ' ', '\t', '\n', '\r', '\x00', '\x01', '\x08', '\x0b', '\x0c', '\x1f', '\x7f',
             '<', '&', ':', ',', '[', ']', '/', "'", 'é', '中', ' ', ' ', '\U0001f600', ' ', '�', 'u', 'n']
@@ -63,6 +98,8 @@ def gen_text(rng, maxlen=10, blanks=True, minlen=0):
         if not blanks and c in " \t\n\r\x0b\x0c   ":
             c = rng.choice('"\\{}')
         out.append(c)
+    if rng.random() < 0.08:
+        out.append("\\" * rng.randrange(1, 4))       # a value ENDING with backslashes: the closing quote follows an even run of them
     return "".join(out).encode("utf8")
 
 
@@ -138,6 +175,10 @@ def gen_seq(rng):
     return "".join(rng.choice(alpha) for _ in range(n)).encode()
 
 
+BUILDS = ["", "", "", "write", "withqual", "copy", "rewrite", "attrs"]
+SETATTR_BUILDS = ("copy", "write", "attrs")           # annotations set through SetAttribute (which diverts id / sequence / qualities)
+
+
 def gen_rec(rng, fmt):
     seq = gen_seq(rng)
     ann = {}
@@ -146,18 +187,40 @@ def gen_rec(rng, fmt):
         if key == b"definition":
             continue
         ann[key] = gen_value(rng)
+    build = rng.choice(BUILDS)
+    # annotations the toolkit itself writes and reads back through typed getters
+    if rng.random() < 0.3:
+        ann[b"count"] = ("int", rng.choice([1, 2, 12, 1000000, 2 ** 53, rng.randrange(1, 10 ** 7)])) if rng.random() < 0.85 else rng.choice(
+            [("float", 2.0), ("float", 2.5), ("str", b"3"), ("bool", True), ("int", 0), ("int", -5)])
+    if rng.random() < 0.15:
+        ann[b"taxid"] = ("int", rng.choice([1, 9606, 2 ** 31, rng.randrange(1, 10 ** 7)]))
+    if rng.random() < 0.1:
+        ann[b"landmark_id"] = ("int", rng.randrange(0, 6))
+    if rng.random() < 0.1:
+        ann[b"landmark_coord"] = ("ints", [rng.randrange(0, 300) for _ in range(rng.randrange(0, 5))])
+    if rng.random() < 0.12:
+        ann[rng.choice([b"obitag_ref_index", b"obitag_geomref_index", b"idx"])] = (
+            "mapintstr", {rng.choice([0, 1, 2, 10, 97, 100, -3, rng.randrange(-10 ** 6, 10 ** 6)]): gen_text(rng, 6) for _ in range(rng.randrange(0, 4))})
+    if rng.random() < 0.08 and build not in SETATTR_BUILDS:
+        ann[rng.choice([b"id", b"sequence", b"qualities"])] = ("str", gen_text(rng, 5))      # annotation keys shadowed by the record's own fields
+    if build in ("write", "rewrite"):
+        seq = seq.lower()                    # the byte-wise writers do not normalise the case
     qual = None
     if fmt == "fastq":
         k = rng.random()
-        if k < 0.3:
+        if k < 0.06:
+            qual = None                      # no qualities: the writer takes the default score 40
+        elif k < 0.09:
+            qual = []                        # an empty quality vector is no quality vector
+        elif k < 0.3:
             qual = [rng.choice([0, 1, 31, 40, 92, 93]) for _ in seq]
         else:
             qual = [rng.randrange(0, 94) for _ in seq]
-    return dict(id=gen_text(rng, 8, blanks=False, minlen=1), definition=gen_text(rng, 8) if rng.random() < 0.5 else b"", seq=seq, qual=qual, ann=ann)
+    return dict(id=gen_text(rng, 8, blanks=False, minlen=1), definition=gen_text(rng, 8) if rng.random() < 0.5 else b"", seq=seq, qual=qual, ann=ann, build=build)
 
 
-def R(id, seq, ann=None, definition=b"", qual=None):
-    return dict(id=id, definition=definition, seq=seq, qual=qual, ann=ann or {})
+def R(id, seq, ann=None, definition=b"", qual=None, build=""):
+    return dict(id=id, definition=definition, seq=seq, qual=qual, ann=ann or {}, build=build)
 
 
 def S(s):
@@ -184,6 +247,33 @@ CORPUS = [
          recs=[R(b"big", b"acgt", {b"count": ("int", 12), b"big_int": ("int", 2 ** 53), b"neg": ("int", -2 ** 53), b"score": ("float", 3.0), b"likelihood": ("float", 1e20),
                                    b"neg_weight": ("float", -2.5e19), b"p63": ("float", 2.0 ** 63), b"l": ("list", [("float", 1e20), ("int", 2 ** 53 - 1)])})], tag="numbers-at-and-beyond-2^53 (C02-A)"),
     dict(mode="rt", fmt="fastq", shift=64, parser="guessed", recs=[R(b"g0", b"acgt", qual=[1, 2, 3, 4]), R(b"g1", b"ac", {b"a": ("int", 1)}, qual=[5, 6])], tag="guessed-without-annotation"),
+    # ---- round 3
+    dict(mode="rt", fmt="fastq", shift=33, parser="guessed", recs=[R(b"bs1", b"acgt", {b"dir": S("C:\\runs\\"), b"k\\": S("\\\\"), b"z": S("}\\")}, definition=b"d\\", qual=[0, 1, 2, 3])],
+         tag="values, key and definition ending with backslashes, FASTQ guessed (lead)"),
+    dict(mode="rt", fmt="fastq", shift=64, parser="json", recs=[R(b"bs2", b"ac", {b"a": S("x\\\\"), b"b": S('\\"\\')}, qual=[93, 0])], tag="backslash runs, FASTQ json (lead)"),
+    dict(mode="rt", fmt="fasta", shift=33, parser="guessed", recs=[R(b"bs3", b"ac", {b"a": S("\\\\\\"), b"b": S("{\\")})], tag="backslash runs, FASTA guessed (lead)"),
+    dict(mode="rt", fmt="fastq", shift=33, parser="json", recs=[R(b"nq1", b"acgtn"), R(b"nq2", b"ac", qual=[]), R(b"nq3", b"a", qual=[7])], tag="FASTQ without qualities (default 40)"),
+    dict(mode="rt", fmt="fasta", shift=33, parser="json",
+         recs=[R(b"own", b"acgt", {b"count": ("int", 1000000), b"taxid": ("int", 9606), b"landmark_id": ("int", 3), b"landmark_coord": ("ints", [0, 5, 12]),
+                                   b"obitag_ref_index": ("mapintstr", {0: b"a", 10: b"b", 2: b"c", 97: b""}), b"merged_sample": ("mapint", {b"s1": 3, b"s2": 2 ** 53}),
+                                   b"id": S("shadow"), b"sequence": S("tttt")})], tag="the toolkit's own annotations through its typed getters"),
+    dict(mode="rt", fmt="fastq", shift=33, parser="json", recs=[R(b"b%d" % i, b"acgt"[: 1 + i % 4], {b"count": ("int", i + 1)}, qual=[i % 94] * (1 + i % 4), build=BUILDS[i % 8]) for i in range(150)],
+         tag="150 records in one batch (the parser's slice grows beyond its first 100)"),
+    dict(mode="rt", fmt="fasta", shift=33, parser="guessed", recs=[R(b"long", b"acgtnryk" * 640, {b"s": S("x\\\" {" * 700)})], tag="5120 nucleotides, title line beyond bufio's 4096 bytes"),
+    dict(mode="rt", fmt="fasta", shift=33, parser="json", skip_empty=True, recs=[R(b"e1", b"acgt", {b"a": ("int", 1)}), R(b"e2", b""), R(b"e3", b"c" * 61)], tag="skipEmpty: a record without nucleotides among others"),
+    dict(mode="rt", fmt="fastq", shift=33, parser="json", skip_empty=True, recs=[R(b"e4", b"", qual=[]), R(b"e5", b"ac", qual=[1, 2])], tag="skipEmpty fastq"),
+    dict(mode="rt", fmt="fasta", shift=33, parser="json", recs=[R(b"e6", b"acgt"), R(b"e7", b"")], expect_fatal=True, tag="a record without nucleotides, skipEmpty off: the writer refuses"),
+    dict(mode="hist", shifts=[33, 64, 33, 64], recs=[R(b"h1", b"acgt" * 24, qual=list(range(94)) + [0, 93])], tag="offsets 33, 64, 33, 64 inside one process (lead)"),
+    dict(mode="hist", shifts=[64, 14, 172, 162, 33, 100], recs=[R(b"h2", b"acgt" * 24, qual=list(range(94)) + [10, 13]), R(b"h3", b"ac", {b"a": ("int", 1)})], tag="offsets at the ends of the working domain"),
+    dict(mode="hist", shifts=[0, 33, 13, 10, 173, 255, 33], recs=[R(b"h4", b"acgt", qual=[10, 13, 0, 93])], tag="offsets outside 14..172 (outside the claim; model and code must agree), then 33 again"),
+    dict(mode="file", fmt="fasta", parser="json", batch_size=2, workers=3, prefill=b">old junk\nacgt\n" * 40,
+         recs=[R(b"f%d" % i, b"acgtac" * (1 + 3 * i), {b"n": ("int", i), b"s": S('q"}\\')}) for i in range(7)], tag="file: truncates a longer old file"),
+    dict(mode="file", fmt="fasta", parser="guessed", batch_size=3, workers=2, append=True, prefill=b">old keep\nacgt\n",
+         recs=[R(b"g%d" % i, b"ac" * (i + 1), {b"n": ("int", i)}) for i in range(5)], tag="file: append"),
+    dict(mode="file", fmt="fastq", parser="json", batch_size=1, workers=4, recs=[R(b"q%d" % i, b"acgt", {b"n": ("float", i + 0.5)}, qual=[i, 93 - i, 0, 40]) for i in range(9)], tag="file: fastq, batches of one"),
+    dict(mode="file", fmt="fastq", parser="guessed", batch_size=4, workers=2, compress=True, prefill=b"not gzip at all " * 30,
+         recs=[R(b"z%d" % i, b"acgtn", qual=[1, 2, 3, 4, 5]) for i in range(6)], tag="file: compressed"),
+    dict(mode="file", fmt="fasta", parser="json", batch_size=2, workers=2, compress=True, recs=[R(b"y%d" % i, b"acgtn" * 30, {b"a": S("\\")}) for i in range(5)], tag="file: compressed fasta"),
     dict(mode="scan", header=b'{"a":"q\\"}"} rest', tag="fixed:scan-fatal"),
     dict(mode="scan", header=b'{ "b" : [1, 2 ,{"x":null}] ,\t"a":"\\u00e9\\/\\b" , "b":true } tail', strict=True, tag="hdr-whitespace-order-duplicate"),
     dict(mode="scan", header=b'{"n":9007199254740993,"m":0,"k":123456789012345678901234,"z":1e-07}', strict=True, tag="hdr-numbers"),
@@ -373,14 +463,39 @@ def gen_hdr(rng):
     return dict(mode="scan", header=txt + tail, strict=True, expect=exp)
 
 
-def gen_cases(ctx, n_rt, n_scan, n_enc):
+def gen_cases(ctx, n_rt, n_scan, n_enc, n_read=0, n_hist=0, n_file=0):
     rng = ctx.rng
     cases = [dict(c) for c in CORPUS]
     for _ in range(n_rt):
         fmt = rng.choice(["fasta", "fastq"])
-        cases.append(dict(mode="rt", fmt=fmt, shift=rng.choice([33, 33, 64, 64, 40]) if fmt == "fastq" else 33, parser=rng.choice(["json", "guessed"]),
-                          shift2=rng.choice([33, 64]) if fmt == "fastq" else 0,       # every input/output offset combination
-                          recs=[gen_rec(rng, fmt) for _ in range(rng.choice([1, 1, 2, 3]))]))
+        c = dict(mode="rt", fmt=fmt, shift=rng.choice([33, 33, 64, 64, 40, 100, 162]) if fmt == "fastq" else 33, parser=rng.choice(["json", "guessed"]),
+                 shift2=rng.choice([33, 64]) if fmt == "fastq" else 0,       # every input/output offset combination
+                 recs=[gen_rec(rng, fmt) for _ in range(rng.choice([1, 1, 2, 3, 6]))])
+        if rng.random() < 0.06:
+            # a record without nucleotides in the batch: left out with skipEmpty, refused without
+            c["recs"].insert(rng.randrange(len(c["recs"]) + 1), R(gen_text(rng, 5, blanks=False, minlen=1), b"", qual=[] if fmt == "fastq" else None))
+            c["shift2"] = 0
+            if rng.random() < 0.6:
+                c["skip_empty"] = True
+            else:
+                c["expect_fatal"] = True
+        cases.append(c)
+    for k in range(n_read):
+        fmt = rng.choice(["fasta", "fastq"])
+        cases.append(gen_foreign(rng, fmt, rng.choice(BAD_FASTA if fmt == "fasta" else BAD_FASTQ) if k % 3 == 2 else None))
+    for _ in range(n_hist):
+        recs = [gen_rec(rng, "fastq") for _ in range(rng.choice([1, 2]))]
+        if not recs[0]["qual"]:
+            recs[0]["qual"] = [rng.randrange(0, 94) for _ in recs[0]["seq"]]
+        cases.append(dict(mode="hist", shifts=[rng.choice([33, 64, 33, 64, 14, 172, 100, 0, 10, 13, 200]) for _ in range(rng.randrange(2, 6))], recs=recs))
+    for _ in range(n_file):
+        fmt = rng.choice(["fasta", "fastq"])
+        app = rng.random() < 0.3
+        cases.append(dict(mode="file", fmt=fmt, parser=rng.choice(["json", "guessed"]), batch_size=rng.choice([1, 2, 3, 5, 100]), workers=rng.choice([1, 2, 4]),
+                          append=app, compress=(not app) and rng.random() < 0.3,
+                          prefill=rng.choice([b"", b">keep\nacgt\n" if fmt == "fasta" else b"@keep\nacgt\n+\nIIII\n", b"x" * 3000]) if not app else
+                          (b">keep\nacgt\n" if fmt == "fasta" else b"@keep\nacgt\n+\nIIII\n") * rng.randrange(0, 3),
+                          recs=[gen_rec(rng, fmt) for _ in range(rng.randrange(1, 12))]))
     for _ in range(n_scan):
         g = gen_scan(rng)
         if isinstance(g, tuple):
@@ -436,6 +551,8 @@ def val_vh(v):
         return dict(t="mapstr", m={b64(k): dict(t="str", s=b64(x)) for k, x in v[1].items()})
     if t == "ints":
         return dict(t="ints", l=[dict(t="int", v=str(x)) for x in v[1]])
+    if t == "mapintstr":
+        return dict(t="mapintstr", m={b64(str(k).encode()): dict(t="str", s=b64(x)) for k, x in v[1].items()})
     if t == "map":
         return dict(t="map", m={b64(k): val_vh(x) for k, x in v[1].items()})
     if t == "list":
@@ -453,9 +570,17 @@ def to_vh(c):
         return d
     if c["mode"] == "enc":
         return dict(mode="enc", val=val_vh(c["val"]))
-    return dict(mode="rt", fmt=c["fmt"], shift=c["shift"], shift2=c.get("shift2", 0), parser=c["parser"],
-                recs=[dict(id=b64(r["id"]), **{"def": b64(r["definition"])}, seq=b64(r["seq"]), qual=r["qual"],
-                           ann={b64(k): val_vh(v) for k, v in r["ann"].items()}) for r in c["recs"]])
+    if c["mode"] == "read":
+        return dict(mode="read", fmt=c["fmt"], shift=c["shift"], parser=c["parser"], text=b64(c["text"]), x_expect=c.get("expect"), x_why=c.get("why"))
+    recs = [dict(id=b64(r["id"]), **{"def": b64(r["definition"])}, seq=b64(r["seq"]), qual=r["qual"], build=r.get("build", ""),
+                 ann={b64(k): val_vh(v) for k, v in r["ann"].items()}) for r in c["recs"]]
+    if c["mode"] == "hist":
+        return dict(mode="hist", shifts=c["shifts"], recs=recs)
+    if c["mode"] == "file":
+        return dict(mode="file", fmt=c["fmt"], parser=c["parser"], batch_size=c.get("batch_size", 2), workers=c.get("workers", 2), append=bool(c.get("append")),
+                    compress=bool(c.get("compress")), prefill=b64(c.get("prefill", b"")), recs=recs)
+    return dict(mode="rt", fmt=c["fmt"], shift=c["shift"], shift2=c.get("shift2", 0), parser=c["parser"], typed=True, skip_empty=bool(c.get("skip_empty")),
+                x_expect_fatal=bool(c.get("expect_fatal")), recs=recs)
 
 
 # ---------------------------------------------------------------- direct oracle
@@ -474,6 +599,8 @@ def plain(v):
         return {k.decode("utf8"): x.decode("utf8") for k, x in v[1].items()}
     if t == "ints":
         return list(v[1])
+    if t == "mapintstr":
+        return {str(k): x.decode("utf8") for k, x in v[1].items()}
     if t == "map":
         return {k.decode("utf8"): plain(x) for k, x in v[1].items()}
     if t == "list":
@@ -505,16 +632,25 @@ def expected_rec(r, fmt):
         ann["definition"] = r["definition"].decode("utf8")
     q = None
     if fmt == "fastq":
-        q = [min(x, 93) for x in r["qual"]] if r["qual"] is not None else [40] * len(r["seq"])
+        q = [min(x, 93) for x in r["qual"]] if r["qual"] else [40] * len(r["seq"])
     return dict(id=r["id"], seq=r["seq"].lower(), qual=q, ann=ann)
 
 
 def oracle_rt(c, o):
     """returns None when the property holds on this observation, else a short reason"""
+    if c.get("expect_fatal"):
+        # a record without nucleotides and skipEmpty off: the writer must refuse (never a silent loss); outside the claim otherwise
+        return None if o["kind"] == "fatal" and not o.get("w1") else "a batch holding a record without nucleotides was written (skipEmpty off): kind %s" % o["kind"]
     if o["kind"] != "ok":
         return "the reader/header parser died (%s) on text the writer produced" % o["kind"]
+    allrecs = c["recs"]
+    if c.get("skip_empty"):
+        c = dict(c, recs=[r for r in c["recs"] if r["seq"]])
     if len(o.get("recs") or []) != len(c["recs"]):
         return "%d records written, %d read back" % (len(c["recs"]), len(o.get("recs") or []))
+    why = oracle_typed(c, allrecs, o)
+    if why:
+        return why
     for i, (r, x) in enumerate(zip(c["recs"], o["recs"])):
         e = expected_rec(r, c["fmt"])
         if unb64(x["id"]) != e["id"]:
@@ -542,6 +678,272 @@ def oracle_rt(c, o):
         if len(a) != len(b) or any(x != y for k, (x, y) in enumerate(zip(a, b)) if k % 4 != 3):
             return "second write (offset %d) differs from the first outside the quality lines" % s2
     return None
+
+
+F64_2_62 = 2.0 ** 62
+
+
+def fbits(x):
+    return str(struct.unpack("<Q", struct.pack("<d", float(x)))[0])
+
+
+SHADOWED = (b"id", b"sequence", b"qualities")
+MAP_TYPES = ("mapint", "mapstr", "map", "mapintstr")
+
+
+def expected_view(t, v):
+    """the fields of the typed view the property fixes for a value of generated type t (None = the getter must say 'no')"""
+    e = {}
+    if t == "int":
+        e.update(i=str(v), f=fbits(v), n=fbits(v), b=(v != 0))
+    elif t == "float":
+        e.update(f=fbits(v), n=fbits(v), b=(v != 0))
+        if abs(v) < F64_2_62:
+            e["i"] = str(int(v))                       # Go's int(float64): truncation
+    elif t == "bool":
+        e.update(i=None, f=None, n=None, b=v)
+    elif t == "str":
+        e.update(i=None, f=None, n=None, b=None, s=b64(v), im=None, **{"is": None})
+    elif t == "mapint":
+        e.update(i=None, im={b64(k): str(x) for k, x in v.items()}, **{"is": None})
+    elif t == "mapstr":
+        e.update(i=None, sm={b64(k): b64(x) for k, x in v.items()}, **{"is": None})
+    elif t == "ints":
+        e.update(i=None, im=None, **{"is": [str(x) for x in v]})
+    elif t == "mapintstr":
+        e.update(i=None, ri={str(k): b64(x) for k, x in v.items()}, **{"is": None})
+    elif t == "null":
+        e.update(i=None, f=None, b=None)
+    return e
+
+
+def int_of(ann, key, default):
+    v = ann.get(key)
+    if v is None:
+        return default
+    if v[0] == "int":
+        return v[1]
+    if v[0] == "float" and abs(v[1]) < F64_2_62:
+        return int(v[1])
+    return default if v[0] not in ("int", "float") else None        # None: not judged
+
+
+def oracle_typed(c, allrecs, o):
+    """the typed getters see the same values before the write and after the read (numbers by value); the one-by-one
+    formatters and the buffer variant of the header formatter agree with the batch formatters; the getters that store
+    their result back do not change the text of the record"""
+    if "typed0" not in o:
+        return None
+    if len(o["typed0"]) != len(allrecs):
+        return "typed views: %d records, %d views" % (len(allrecs), len(o["typed0"]))
+    nonempty = [i for i, r in enumerate(allrecs) if r["seq"]]
+    if o.get("single") != o.get("w1"):
+        return "FormatFasta / FormatFastq record by record differ from FormatFastaBatch / FormatFastqBatch"
+    if o.get("whdr") != o.get("fhdr"):
+        return "WriteFastSeqJsonHeader differs from FormatFastSeqJsonHeader"
+    for j, i in enumerate(nonempty):
+        r, x = allrecs[i], o["recs"][j]
+        if x.get("enc3") is not None and x["enc3"] != x["enc"]:
+            return "record %d: the typed getters that store their result back changed the formatted header: %r -> %r" % (j, unb64(x["enc"]), unb64(x["enc3"]))
+        ann = dict(r["ann"])
+        if r["definition"]:
+            ann[b"definition"] = ("str", r["definition"])
+        views = (("before the write", {unb64(t["k"]): t for t in o["typed0"][i]}), ("after the read", {unb64(t["k"]): t for t in x.get("typed") or []}))
+        for when, vw in views:
+            for k, (t, *rest) in ann.items():
+                tv = vw.get(k)
+                if tv is None or not tv.get("has"):
+                    return "record %d, %s: attribute %r is missing" % (j, when, k)
+                if k in SHADOWED:
+                    continue
+                for f, want in expected_view(t, rest[0] if rest else None).items():
+                    if tv.get(f) != want:
+                        return "record %d, %s: typed getter '%s' on %r (written as %s %r) answers %r instead of %r" % (j, when, f, k, t, rest[0] if rest else None, tv.get(f), want)
+            rv = next((t["rec"] for t in vw.values() if t.get("rec")), None)
+            if rv is None:
+                return "record %d, %s: no record view" % (j, when)
+            for name, key, dflt in (("count", b"count", 1), ("taxid", b"taxid", 1), ("landmark", b"landmark_id", -1)):
+                want = int_of(ann, key, dflt)
+                if want is not None and rv[name] != want:
+                    return "record %d, %s: %s() answers %r instead of %r" % (j, when, name, rv[name], want)
+            gi = ann.get(b"obitag_geomref_index")
+            if (gi is None and rv.get("geomri") is not None) or (gi is not None and gi[0] == "mapintstr" and rv.get("geomri") != {str(a): b64(b) for a, b in gi[1].items()}):
+                return "record %d, %s: OBITagGeomRefIndex() answers %r" % (j, when, rv.get("geomri"))
+            lc = ann.get(b"landmark_coord")
+            if (lc is None and rv["coord"] is not None) or (lc is not None and lc[0] == "ints" and rv["coord"] != [str(z) for z in lc[1]]):
+                return "record %d, %s: GetCoordinate() answers %r" % (j, when, rv["coord"])
+            if unb64(rv["str"]) != r["seq"].lower() or rv["len"] != len(r["seq"]) or not rv["has_seq"]:
+                return "record %d, %s: String()/Len()/HasSequence() do not describe the nucleotides" % (j, when)
+            if unb64(rv["def"]) != r["definition"] or rv["has_def"] != bool(r["definition"]):
+                return "record %d, %s: Definition() answers %r" % (j, when, unb64(rv["def"]))
+            keys = {k for k in ann} | {b"id", b"sequence"}
+            if (when == "after the read" and c["fmt"] == "fastq") or (when == "before the write" and r["qual"]):
+                keys.add(b"qualities")
+            if sorted(unb64(k) for k in rv["keys"] or []) != sorted(keys):
+                return "record %d, %s: Keys() answers %r instead of %r" % (j, when, sorted(unb64(k) for k in rv["keys"] or []), sorted(keys))
+            if sorted(unb64(k) for k in rv["akeys"] or []) != sorted(k for k, v in ann.items() if v[0] not in MAP_TYPES):
+                return "record %d, %s: AttributeKeys(skip maps) answers %r" % (j, when, sorted(unb64(k) for k in rv["akeys"] or []))
+    return None
+
+
+# ---------------------------------------------------------------- round 3: text nobody formatted, offset histories, files
+def gen_foreign(rng, fmt, bad=None):
+    """a FASTA / FASTQ text laid out as other tools lay it out (CR LF, tabs, blank lines, other line widths, upper case, no
+    final line end, free-style JSON or plain text on the title line) and the records it denotes; bad: one defect that the
+    reader must refuse"""
+    shift = rng.choice([33, 64]) if fmt == "fastq" else 33
+    parser = rng.choice(["json", "guessed"])
+    eol = rng.choice([b"\n", b"\n", b"\n", b"\r\n", b"\r"])
+    nrec = rng.choice([1, 1, 2, 3, 5])
+    badat = rng.randrange(nrec) if bad else -1
+    out, exp = bytearray(), []
+    for j in range(nrec):
+        ident = gen_text(rng, 8, blanks=False, minlen=1)
+        k = rng.random()
+        hdr_expect = None
+        if k < 0.2:
+            rem = b""
+            hdr_expect = b64(b"")
+        elif k < 0.3:
+            rem = rng.choice([b" ", b"\t ", b"  "])
+            hdr_expect = b64(b"")
+        elif k < 0.85 or parser == "guessed":
+            h = gen_hdr(rng)
+            rem = rng.choice([b" ", b"\t", b"  ", b" \t "]) + h["header"]
+            if h.get("strict") and "expect" in h:
+                hdr_expect = b64(h["expect"])
+        else:
+            d = gen_text(rng, 10, minlen=1).replace(b"\n", b"n").replace(b"\r", b"r").replace(b"{", b"(").strip(b" \t\x0b\x0c")
+            d = d or b"plain"
+            rem = b" " + d
+            try:
+                hdr_expect = b64(jtext_canonical(("obj", [(b"definition", ("str", d))]))) if is_utf8(d) else None
+            except Exception:
+                hdr_expect = None
+        seq = gen_seq(rng)
+        lead = b">" if fmt == "fasta" else b"@"
+        q = [rng.randrange(0, 94) for _ in seq]
+        if j == badat:
+            if bad == "no-marker":
+                lead = b"#"
+            elif bad == "blank-after-marker":
+                ident = b" " + ident
+            elif bad == "no-identifier":
+                ident, rem = b"", b""
+            elif bad == "digit-in-sequence":
+                at = max(1, len(seq) // 2)         # (the FASTQ reader takes the first nucleotide as it comes)
+                seq = seq[:at] + rng.choice([b"1", b"*", b"?", b"\x00", b"\xe9"]) + seq[at:]
+                q = q + [5]
+        out += lead + ident + rem + eol + (eol if rng.random() < 0.1 else b"")
+        if fmt == "fasta":
+            w = rng.choice([60, 60, 10, 1, 80, 7])
+            body = bytearray()
+            for a in range(0, len(seq), w):
+                line = bytearray(seq[a:a + w])
+                if rng.random() < 0.15 and len(line) > 1:
+                    line.insert(rng.randrange(1, len(line)), rng.choice(b" \t"))
+                if rng.random() < 0.1:
+                    line += b" "
+                body += line + eol + (eol if rng.random() < 0.08 else b"")
+            if j == badat and bad == "blank-before-sequence":
+                body = b" " + body
+            if j == badat and bad == "marker-inside-sequence":
+                body = body[:1] + b">" + body[1:]
+            if j == nrec - 1 and rng.random() < 0.3:
+                body = body.rstrip(b"\r\n \t")
+            out += body
+        else:
+            qs = bytes((x + shift) % 256 for x in q)
+            if j == badat and bad == "quality-shorter":
+                qs = qs[:-1] if len(qs) > 1 else qs + qs
+            if j == badat and bad == "quality-longer":
+                qs = qs + qs[:1]
+            plus = b"+" + (ident if rng.random() < 0.3 else b"") + (b" again" if rng.random() < 0.1 else b"")
+            if j == badat and bad == "no-plus-line":
+                out += seq + eol + qs + eol
+            else:
+                out += seq + eol + plus + eol + (eol if rng.random() < 0.05 else b"") + qs
+                if not (j == nrec - 1 and rng.random() < 0.3):
+                    out += eol + (eol if rng.random() < 0.1 else b"")
+            if j == badat and bad == "junk-between-records":
+                out += b"junk" + eol
+        exp.append(dict(id=b64(ident), seq=b64(bytes(ch for ch in seq.lower() if ch not in b" \t")), qual=q if fmt == "fastq" else None, enc=hdr_expect))
+    return dict(mode="read", fmt=fmt, shift=shift, parser=parser, text=bytes(out), expect=None if bad else exp, why=bad)
+
+
+BAD_FASTA = ["no-marker", "blank-after-marker", "no-identifier", "digit-in-sequence", "blank-before-sequence", "marker-inside-sequence"]
+BAD_FASTQ = ["no-marker", "no-identifier", "digit-in-sequence", "quality-shorter", "quality-longer", "no-plus-line", "junk-between-records"]
+
+
+def oracle_read(c, o):
+    if c.get("why"):
+        # a text with one defect the reader is documented to refuse: it must not be read as if nothing were wrong
+        return None if o["kind"] in ("fatal", "panic") else "a text with the defect '%s' was accepted" % c["why"]
+    if o["kind"] != "ok":
+        return "the reader died (%s: %s) on a well-formed text" % (o["kind"], o.get("msg", "")[:80])
+    if o.get("w1") != o.get("w2"):
+        return "write after read is not a fixed point on a text nobody formatted"
+    exp = c.get("expect")
+    if exp is None:
+        return None
+    if len(o.get("recs") or []) != len(exp):
+        return "%d records in the text, %d read" % (len(exp), len(o.get("recs") or []))
+    for i, (e, x) in enumerate(zip(exp, o["recs"])):
+        if x["id"] != e["id"]:
+            return "record %d: identifier %r instead of %r" % (i, unb64(x["id"]), unb64(e["id"]))
+        if x["seq"] != e["seq"]:
+            return "record %d: nucleotides differ" % i
+        if x.get("qual") != e["qual"]:
+            return "record %d: qualities differ" % i
+        if e.get("enc") is not None:
+            def value_of(b):
+                try:
+                    return json.loads(b.decode("utf8")) if b else {}
+                except Exception:
+                    return "unparsable: %r" % b
+            if not same(value_of(unb64(x["enc"])), value_of(unb64(e["enc"]))):
+                return "record %d: annotations %r instead of %r" % (i, unb64(x["enc"]), unb64(e["enc"]))
+    return None
+
+
+def shift_in_domain(sh):
+    return 14 <= sh <= 172
+
+
+def oracle_hist(c, o):
+    if o["kind"] != "ok":
+        return "harness: %s %s" % (o["kind"], o.get("msg", ""))
+    want = [expected_rec(r, "fastq")["qual"] for r in c["recs"]]
+    inside = all(max(q) <= 93 for q in want)
+    for k, (sh, h) in enumerate(zip(c["shifts"], o.get("hist") or [])):
+        line = unb64(h["w"]).split(b"\n")[3] if h.get("w") else b""
+        if inside and line != bytes((x + sh) % 256 for x in want[0]) and shift_in_domain(sh):
+            return "step %d (output offset %d after %r): quality line %r" % (k, sh, c["shifts"][:k], line)
+        if unb64(h.get("qs", "")) != line and shift_in_domain(sh) and c["recs"][0]["qual"]:
+            return "step %d: the 'qualities' attribute differs from the written quality line" % k
+        if shift_in_domain(sh) and inside:
+            if h.get("err"):
+                return "step %d (offset %d): the reader died: %s" % (k, sh, h["err"][:80])
+            if [x.get("qual") for x in h.get("recs") or []] != want:
+                return "step %d (offset %d after %r): scores %r read back instead of %r" % (k, sh, c["shifts"][:k], [x.get("qual") for x in h.get("recs") or []][:1], want[:1])
+    return None
+
+
+def oracle_file(c, o):
+    if o["kind"] != "ok":
+        return "file writer / reader: %s %s" % (o["kind"], o.get("msg", "")[:100])
+    want = (c.get("prefill", b"") if c.get("append") else b"") + unb64(o["w1"])
+    if c.get("compress") and not o.get("gz"):
+        return "the file written with the compression option is not a gzip file"
+    if not c.get("compress") and o.get("gz"):
+        return "the file written without the compression option is a gzip file"
+    if c.get("compress") and c.get("append"):
+        want = unb64(o["w1"])                # (not generated: appending to a non-gzip file)
+    if unb64(o["file"]) != want:
+        return "file content differs from %sthe text of the records (%d bytes instead of %d)" % ("the old content + " if c.get("append") else "", len(unb64(o["file"])), len(want))
+    if c.get("append"):
+        return None                          # the old content is not the writer's: only the bytes are judged
+    return oracle_rt(dict(c, mode="rt", shift=33, shift2=0), {k: v for k, v in o.items() if k != "typed0"})
 
 
 def oracle_scan(c, o):
@@ -598,6 +1000,9 @@ IMPORTS = ("From Coq Require Import NArith ZArith List. Import ListNotations. Op
            "From OBI.C02 Require Import Model.")
 
 
+IMPORTS3 = IMPORTS + "\nFrom OBI.C02 Require Import Model3."
+
+
 def nl(b):
     return "[" + ";".join(str(x) for x in b) + "]"
 
@@ -630,6 +1035,8 @@ def jterm(v, tok):
         return jobj({k: ("int", x) for k, x in v[1].items()}, tok)
     if t == "mapstr":
         return jobj({k: ("str", x) for k, x in v[1].items()}, tok)
+    if t == "mapintstr":
+        return jobj({str(k).encode(): ("str", x) for k, x in v[1].items()}, tok)
     if t == "map":
         return jobj(v[1], tok)
     if t == "ints":
@@ -706,6 +1113,8 @@ def val_utf8(v):
         return all(is_utf8(k) for k in v[1])
     if t == "mapstr":
         return all(is_utf8(k) and is_utf8(x) for k, x in v[1].items())
+    if t == "mapintstr":
+        return all(is_utf8(x) for x in v[1].values())
     if t == "map":
         return all(is_utf8(k) and val_utf8(x) for k, x in v[1].items())
     if t == "list":
@@ -734,10 +1143,108 @@ def prec_term(x):
     return "mkp %s %s %s %s" % (nl(unb64(x["id"])), nl(unb64(x["rawdef"])), nl(unb64(x["seq"])), q)
 
 
+def zt(z):
+    return "(%d)%%Z" % int(z)
+
+
+def f64_term(bits):
+    bits = int(bits)
+    neg, e, frac = bits >> 63, (bits >> 52) & 0x7ff, bits & ((1 << 52) - 1)
+    if e == 0:
+        m, x = (0, 0) if frac == 0 else (frac, -1074)
+    else:
+        m, x = (1 << 52) + frac, e - 1075
+    return "(%s, F64 %d %s)" % ("true" if neg else "false", m, zt(x))
+
+
+def opt(x, f):
+    return "None" if x is None else "(Some %s)" % f(x)
+
+
+def gobs_terms(r, x):
+    """observations of the typed getters on one re-read record, as Model3.gobs terms; which getters are rendered for a key
+    depends on the type the value was written with (the model answers for every getter on every JSON value, except where it
+    says NotModelled)"""
+    ann = dict(r["ann"]) if r is not None else {}
+    if r is not None and r["definition"]:
+        ann[b"definition"] = ("str", r["definition"])
+    out = []
+    for tv in x.get("typed") or []:
+        k = unb64(tv["k"])
+        if k in SHADOWED or not is_utf8(k):
+            continue
+        t = ann[k][0] if k in ann else "absent"
+        K = nl(k)
+        want = dict(int="i f b", float="i f b", bool="i b", str="s i", mapint="im i", mapstr="sm im", ints="is i", list="is", map="im", mapintstr="ri sm", null="i",
+                    absent="i f b s im sm is ri").get(t, "i").split()
+        if "i" in want:
+            out.append("GI %s %s" % (K, opt(tv["i"], zt)))
+        if "f" in want:
+            out.append("GF %s %s" % (K, opt(tv["f"], f64_term)))
+        if "b" in want:
+            out.append("GB %s %s" % (K, opt(tv["b"], lambda b: "true" if b else "false")))
+        if "s" in want:
+            out.append("GS %s %s" % (K, opt(tv["s"], lambda v: nl(unb64(v)))))
+        if "im" in want:
+            out.append("GIM %s %s" % (K, opt(tv["im"], lambda m: "[" + "; ".join("(%s, %s)" % (nl(a), zt(m[b64(a)])) for a in sorted((unb64(q) for q in m), key=enc_key)) + "]")))
+        if "sm" in want:
+            out.append("GSM %s %s" % (K, opt(tv["sm"], lambda m: "[" + "; ".join("(%s, %s)" % (nl(a), nl(unb64(m[b64(a)]))) for a in sorted((unb64(q) for q in m), key=enc_key)) + "]")))
+        if "is" in want:
+            out.append("GIS %s %s" % (K, opt(tv["is"], lambda l: "[" + "; ".join(zt(z) for z in l) + "]")))
+        if "ri" in want:
+            out.append("GRI %s %s" % (K, opt(tv["ri"], lambda m: "[" + "; ".join("(%s, %s)" % (zt(a), nl(unb64(m[a]))) for a in sorted(m, key=lambda q: enc_key(q.encode()))) + "]")))
+        if tv.get("rec"):
+            out += ["GCount %s" % zt(tv["rec"]["count"]), "GTaxid %s" % zt(tv["rec"]["taxid"]), "GLandmark %s" % zt(tv["rec"]["landmark"])]
+    return out
+
+
+def in_claim(recs, fq):
+    return all(r["qual"] is None or (len(r["qual"]) in (0, len(r["seq"])) and max(r["qual"] or [0]) <= 93) for r in recs) if fq else True
+
+
+def wrec3(r, fmt, tok):
+    return wrec_term(dict(r, qual=r["qual"] or None), fmt, tok)
+
+
+PER_RECORD_TERMS = 8       # scanner / header / typed-getter cases per batch (whole batches go through CWrite / CRead anyway)
+
+
 def terms_of(c, o, tok):
     """Gallina correspondence cases of one harness case (possibly several)"""
     out = []
     if o.get("kind") == "crash":
+        return out
+    if c["mode"] == "read":
+        fq = "true" if c["fmt"] == "fastq" else "false"
+        if o["kind"] == "ok":
+            out.append("CRead %s %d %s [%s]" % (fq, c["shift"], nl(c["text"]), "; ".join(prec_term(x) for x in o["recs"])))
+            for x, e in zip(o["recs"], c.get("expect") or [None] * len(o["recs"])):
+                g = c["parser"] == "guessed"
+                d = unb64(x["rawdef"])
+                if g and not (d.startswith(b"{") or d == b""):
+                    continue
+                out.append("CHdr %s %s %s false %s" % ("true" if g else "false", "true" if e and e.get("enc") is not None else "false", nl(d), nl(unb64(x["enc"]))))
+        elif o["kind"] == "fatal":
+            out.append("CReadFatal %s %d %s" % (fq, c["shift"], nl(c["text"])))
+        return out
+    if c["mode"] == "hist":
+        dom = in_claim(c["recs"], True)
+        for sh, h in zip(c["shifts"], o.get("hist") or []):
+            w = unb64(h["w"])
+            out.append("CWrite true %d [%s] %s %s" % (sh, "; ".join(wrec3(r, "fastq", tok) for r in c["recs"]), "true" if dom and all(r["qual"] for r in c["recs"]) else "false", nl(w)))
+            if h.get("err"):
+                out.append("CReadFatal true %d %s" % (sh, nl(w)))
+            else:
+                out.append("CRead true %d %s [%s]" % (sh, nl(w), "; ".join(prec_term(x) for x in h.get("recs") or [])))
+        return out
+    if c["mode"] == "file":
+        if o["kind"] == "ok":
+            out.append("CFile %s %s %s %d [%s] %s" % ("true" if c["fmt"] == "fastq" else "false", "true" if c.get("append") and not c.get("compress") else "false",
+                                                   nl(c.get("prefill", b"")), c.get("batch_size", 2), "; ".join(wrec3(r, c["fmt"], tok) for r in c["recs"]), nl(unb64(o["file"]))))
+        return out
+    if c["mode"] == "rt" and c.get("expect_fatal"):
+        if o["kind"] == "fatal":
+            out.append("CWriteFatal %s %d [%s]" % ("true" if c["fmt"] == "fastq" else "false", c["shift"], "; ".join(wrec3(r, c["fmt"], tok) for r in c["recs"])))
         return out
     if c["mode"] == "enc" and o["kind"] == "ok":
         out.append("CSer (%s) %s %s" % (jterm(c["val"], tok), "true" if val_utf8(c["val"]) else "false", nl(unb64(o["enc"]))))
@@ -759,15 +1266,25 @@ def terms_of(c, o, tok):
     elif c["mode"] == "rt" and o.get("w1"):
         fq = "true" if c["fmt"] == "fastq" else "false"
         w1 = unb64(o["w1"])
-        dom = all(r["qual"] is not None and max(r["qual"]) <= 93 for r in c["recs"]) if c["fmt"] == "fastq" else True
-        out.append("CWrite %s %d [%s] %s %s" % (fq, c["shift"], "; ".join(wrec_term(r, c["fmt"], tok) for r in c["recs"]), "true" if dom else "false", nl(w1)))
-        if o["kind"] == "ok" and c["fmt"] == "fastq" and c.get("shift2") and c["shift2"] != c["shift"] and dom:
+        dom = all(r["qual"] and max(r["qual"]) <= 93 for r in c["recs"]) if c["fmt"] == "fastq" else True
+        if c.get("skip_empty"):
+            out.append("CWriteSkip %s %d [%s] %s" % (fq, c["shift"], "; ".join(wrec3(r, c["fmt"], tok) for r in c["recs"]), nl(w1)))
+        else:
+            out.append("CWrite %s %d [%s] %s %s" % (fq, c["shift"], "; ".join(wrec3(r, c["fmt"], tok) for r in c["recs"]), "true" if dom else "false", nl(w1)))
+        if o["kind"] == "ok" and c["fmt"] == "fastq" and c.get("shift2") and c["shift2"] != c["shift"] and dom and not c.get("skip_empty"):
             # the same records written with the other quality offset
             out.append("CWrite true %d [%s] true %s" % (c["shift2"], "; ".join(wrec_term(r, c["fmt"], tok) for r in c["recs"]), nl(unb64(o["w2"]))))
         if o["kind"] == "ok":
+            kept = [r for r in c["recs"] if r["seq"]] if c.get("skip_empty") else c["recs"]
+            if len(kept) == len(o["recs"]):
+                for r, x in list(zip(kept, o["recs"]))[:PER_RECORD_TERMS]:
+                    g = gobs_terms(r, x)
+                    if g:
+                        out.append("CTyped %s %s [%s]" % ("true" if c["parser"] == "guessed" else "false", nl(unb64(x["rawdef"])), "; ".join(g)))
+        if o["kind"] == "ok":
             # the chunk parser's view (qualities only exist for fastq)
             out.append("CRead %s %d %s [%s]" % (fq, c["shift"], nl(w1), "; ".join(prec_term(x) for x in o["recs"])))
-            for x in o["recs"]:
+            for x in o["recs"][:PER_RECORD_TERMS]:
                 if x["start"] != -2:
                     out.append("CScan %s (%d)%%Z (%d)%%Z false []" % (nl(unb64(x["rawdef"])), x["start"], x["stop"]))
                 if x.get("enc") is not None:
@@ -783,7 +1300,7 @@ def float_tokens(ctx, cases):
             collect_floats(c["val"], acc)
         elif c["mode"] == "scan" and "obj" in c:
             collect_floats(("map", c["obj"]), acc)
-        elif c["mode"] == "rt":
+        elif c["mode"] in ("rt", "hist", "file"):
             for r in c["recs"]:
                 collect_floats(("map", r["ann"]), acc)
     fl = sorted(acc)
@@ -799,13 +1316,18 @@ def correspond(ctx, cases, obs, broken, label):
             terms.append(t)
             owner.append(i)
     # batches and chunk-parser cases are heavy (long byte lists): small shards; everything else: few big shards
-    heavy = [j for j, t in enumerate(terms) if t.startswith(("CWrite", "CRead", "CDec"))]
-    light = [j for j, t in enumerate(terms) if not t.startswith(("CWrite", "CRead", "CDec"))]
+    new3 = ("CTyped", "CReadFatal", "CWriteFatal", "CWriteSkip", "CFile")
+    big = [j for j, t in enumerate(terms) if len(t) > 60000]          # one case per file: very long literal lists
+    third = [j for j, t in enumerate(terms) if t.startswith(new3) and j not in big]
+    heavy = [j for j, t in enumerate(terms) if t.startswith(("CWrite", "CRead", "CDec")) and not t.startswith(new3) and j not in big]
+    light = [j for j, t in enumerate(terms) if not t.startswith(("CWrite", "CRead", "CDec")) and not t.startswith(new3) and j not in big]
     out = []
-    for sub, idx, shard in ((label + "h", heavy, 70), (label + "l", light, 700)):
+    groups = [(label + "h", heavy, 60, "mismatches"), (label + "l", light, 250, "mismatches"), (label + "t", third, 100, "mismatches3"),
+              (label + "b", [j for j in big if not terms[j].startswith(new3)], 1, "mismatches"), (label + "c", [j for j in big if terms[j].startswith(new3)], 1, "mismatches3")]
+    for sub, idx, shard, fn in groups:
         if not idx:
             continue
-        bad, err = ctx.correspond(sub, IMPORTS, [terms[j] for j in idx], shard=shard)
+        bad, err = ctx.correspond(sub, IMPORTS3 if fn == "mismatches3" else IMPORTS, [terms[j] for j in idx], fn=fn, shard=shard)
         if bad is None:
             broken.append(dict(kind="correspondence", detail=err))
             return []
@@ -814,7 +1336,9 @@ def correspond(ctx, cases, obs, broken, label):
 
 
 def nontrivial(c):
-    if c["mode"] == "rt":
+    if c["mode"] == "read":
+        return True
+    if c["mode"] in ("rt", "hist", "file"):
         return any(r["ann"] or len(r["seq"]) > 60 for r in c["recs"])
     if c["mode"] == "scan":
         return any(ch in c["header"] for ch in b'{"\\')
@@ -888,6 +1412,9 @@ def shrink(ctx, c, fails):
     return c
 
 
+ORACLES = dict(rt=oracle_rt, scan=oracle_scan, enc=oracle_enc, read=oracle_read, hist=oracle_hist, file=oracle_file)
+
+
 def run_cases(ctx, cases, broken, label, correspond_too=True):
     # pass 1: serialise the objects of structured scan cases with the real encoder (their header is obj ++ rest)
     idx = [i for i, c in enumerate(cases) if c["mode"] == "scan" and "obj" in c and "header" not in c]
@@ -903,11 +1430,11 @@ def run_cases(ctx, cases, broken, label, correspond_too=True):
     ctx.cov.setdefault("timing_s", {})[label + "_harness"] = round(time.time() - t0, 1)
     nviol = 0
     for i, (c, o) in enumerate(zip(cases, obs)):
-        why = dict(rt=oracle_rt, scan=oracle_scan, enc=oracle_enc)[c["mode"]](c, o) if o.get("kind") != "crash" else "harness crashed"
+        why = ORACLES[c["mode"]](c, o) if o.get("kind") != "crash" else "harness crashed"
         if why:
             nviol += 1
             if nviol <= 3:
-                orc = dict(rt=oracle_rt, scan=oracle_scan, enc=oracle_enc)[c["mode"]]
+                orc = ORACLES[c["mode"]]
                 small = shrink(ctx, c, lambda x, y: orc(x, y) is not None) if o.get("kind") != "crash" else c
                 so = ctx.vh_robust("c02", [to_vh(small)], timeout=60, one_timeout=10)[0]
                 ctx.violation("%s_oracle_%d" % (label, i), dict(property="C02", kind="direct-oracle", why=orc(small, so) or why, case=to_vh(small), tag=c.get("tag"),
@@ -923,7 +1450,10 @@ def readable(c):
         return dict(header=c["header"].decode("utf8", "replace"))
     if c["mode"] == "enc":
         return dict(val=repr(c["val"]))
-    return dict(fmt=c["fmt"], shift=c["shift"], parser=c["parser"],
+    if c["mode"] == "read":
+        return dict(fmt=c["fmt"], shift=c["shift"], parser=c["parser"], defect=c.get("why"), text=c["text"].decode("utf8", "replace")[:400])
+    return dict(mode=c["mode"], fmt=c.get("fmt"), shift=c.get("shift"), shifts=c.get("shifts"), parser=c.get("parser"), skip_empty=c.get("skip_empty"),
+                append=c.get("append"), compress=c.get("compress"), batch_size=c.get("batch_size"),
                 recs=[dict(id=r["id"].decode("utf8", "replace"), seq=r["seq"].decode(), ann=repr(r["ann"])) for r in c["recs"]])
 
 
@@ -945,6 +1475,8 @@ def val_from_vh(d):
         return ("mapstr", {unb64(k): unb64(x.get("s", "")) for k, x in d.get("m", {}).items()})
     if t == "ints":
         return ("ints", [int(x["v"]) for x in d.get("l", [])])
+    if t == "mapintstr":
+        return ("mapintstr", {int(unb64(k)): unb64(x.get("s", "")) for k, x in d.get("m", {}).items()})
     if t == "map":
         return ("map", {unb64(k): val_from_vh(x) for k, x in d.get("m", {}).items()})
     if t == "list":
@@ -962,16 +1494,24 @@ def from_vh(c):
         return d
     if c["mode"] == "enc":
         return dict(mode="enc", val=val_from_vh(c["val"]))
-    return dict(mode="rt", fmt=c["fmt"], shift=c["shift"], shift2=c.get("shift2", 0), parser=c["parser"],
-                recs=[dict(id=unb64(r["id"]), definition=unb64(r.get("def", "")), seq=unb64(r["seq"]), qual=r.get("qual"),
-                           ann={unb64(k): val_from_vh(v) for k, v in r.get("ann", {}).items()}) for r in c["recs"]])
+    if c["mode"] == "read":
+        return dict(mode="read", fmt=c["fmt"], shift=c["shift"], parser=c["parser"], text=unb64(c["text"]), expect=c.get("x_expect"), why=c.get("x_why"))
+    recs = [dict(id=unb64(r["id"]), definition=unb64(r.get("def", "")), seq=unb64(r["seq"]), qual=r.get("qual"), build=r.get("build", ""),
+                 ann={unb64(k): val_from_vh(v) for k, v in r.get("ann", {}).items()}) for r in c["recs"]]
+    if c["mode"] == "hist":
+        return dict(mode="hist", shifts=c["shifts"], recs=recs)
+    if c["mode"] == "file":
+        return dict(mode="file", fmt=c["fmt"], parser=c["parser"], batch_size=c.get("batch_size", 2), workers=c.get("workers", 2), append=c.get("append", False),
+                    compress=c.get("compress", False), prefill=unb64(c.get("prefill", "")), recs=recs)
+    return dict(mode="rt", fmt=c["fmt"], shift=c["shift"], shift2=c.get("shift2", 0), parser=c["parser"], skip_empty=c.get("skip_empty", False),
+                expect_fatal=c.get("x_expect_fatal", False), recs=recs)
 
 
 def cli_stage(ctx, cases, obs, broken):
     """End to end on the built command: the text written by FormatFasta/FastqBatch for all rt cases (offset 33), fed to
     `obiconvert` (default = guessed header parser, and --input-json-header), must come out byte-identical."""
     import vlib
-    bindir, err = ctx.build_cmds(["obiconvert"])
+    bindir, err = ctx.build_cmds(["obiconvert", "obigrep"])
     if bindir is None:
         broken.append(dict(kind="cmd-build", detail=err))
         return
@@ -999,7 +1539,7 @@ def cli_stage(ctx, cases, obs, broken):
                                    input_b64=b64(text), cmd=[exe] + flags + [path]))
     # FASTQ written with offset 64 read with --solexa: must come out as the offset-33 text of the same records
     sel = [(unb64(o["w1"]), unb64(o["w2"])) for c, o in zip(cases, obs) if c["mode"] == "rt" and c["fmt"] == "fastq" and c["shift"] == 64 and c.get("shift2") == 33
-           and o.get("kind") == "ok" and all(r["qual"] is not None and max(r["qual"]) <= 93 for r in c["recs"])]
+           and o.get("kind") == "ok" and all(r["qual"] and max(r["qual"]) <= 93 for r in c["recs"])]
     if sel:
         text64, text33 = b"".join(a for a, _ in sel), b"".join(b for _, b in sel)
         path = os.path.join(vlib.BUILD, "c02_cli_%s_in64.fastq" % ctx.tier)
@@ -1020,11 +1560,138 @@ def cli_stage(ctx, cases, obs, broken):
                                    input_b64=b64(text64), expected_b64=b64(text33), cmd=[exe] + flags + [path]))
         ctx.cov["cli_solexa_records"] = sum(a.count(b"\n") // 4 for a, _ in sel)
     ctx.cov["cli_roundtrips"] = n
+    # round 3: the command-level glue (explicit formats, output file, stdin, compression, paired files, several files,
+    # worker / batch options, inputs beyond the 1 MiB read buffer), always against the text judged in process
+    jobs = []
+    for fmt in ("fasta", "fastq"):
+        texts = [unb64(o["w1"]) for c, o in zip(cases, obs) if c["mode"] == "rt" and c["fmt"] == fmt and c["shift"] == 33 and o.get("w1") and o.get("kind") == "ok"]
+        if texts:
+            jobs += cli_jobs(fmt, texts)
+    ran = {}
+    for job in jobs:
+        why = cli_run_job(bindir, job, os.path.join(vlib.BUILD, "c02_cli3_%s" % ctx.tier))
+        ran[job["name"]] = "ok" if why is None else why
+        if why:
+            ctx.violation("cli_" + job["name"], dict(property="C02", kind="cli3", why=why, exe=bindir, job=job_to_json(job)))
+    ctx.cov["cli_glue"] = ran
+
+
+def records_of(fmt, text):
+    if fmt == "fastq":
+        lines = text.split(b"\n")
+        return sorted(b"\n".join(lines[i:i + 4]) for i in range(0, len(lines) - 1, 4))
+    return sorted(x if x.startswith(b">") else b">" + x for x in text.rstrip(b"\n").split(b"\n>")) if text else []
+
+
+def cli_jobs(fmt, texts):
+    """declarative command-line jobs: inputs (name -> (bytes, times)), steps (argument lists, optional stdin file),
+    expectations on the last stdout and on files (exact bytes, or the same records in any order)"""
+    T = b"".join(texts)
+    A, B = b"".join(texts[:len(texts) // 2]), b"".join(texts[len(texts) // 2:])
+    k = (2600000 // max(1, len(T))) + 1
+    ext = "." + fmt
+    J = lambda name, inputs, steps, cmd="obiconvert", **exp: dict(name="%s_%s" % (fmt, name), fmt=fmt, cmd=cmd, inputs=inputs, steps=steps, expect=exp)
+    one = {"in" + ext: (T, 1)}
+    return [
+        J("explicit-formats-to-file", one, [(["--" + fmt, "--" + fmt + "-output", "--out", "out" + ext, "in" + ext], None)], files={"out" + ext: (T, 1)}, stdout=(b"", 1)),
+        J("explicit-formats-to-stdout", one, [(["--" + fmt, "--" + fmt + "-output", "--output-json-header", "in" + ext], None)], stdout=(T, 1)),
+        J("stdin", one, [([], "in" + ext)], stdout=(T, 1)),
+        J("stdin-explicit", one, [(["--" + fmt, "--input-json-header", "--" + fmt + "-output"], "in" + ext)], stdout=(T, 1)),
+        J("compress-then-read", one, [(["--compress", "--out", "out" + ext + ".gz", "in" + ext], None), (["out" + ext + ".gz"], None)], gunzip={"out" + ext + ".gz": (T, 1)}, stdout=(T, 1)),
+        J("paired", {"r1" + ext: (T, 1), "r2" + ext: (T, 1)}, [(["--paired-with", "r2" + ext, "--" + fmt + "-output", "--out", "out" + ext, "r1" + ext], None)],
+          files={"out_R1" + ext: (T, 1), "out_R2" + ext: (T, 1)}),
+        # (a file named twice is read once: the list of input files is a set; hence three files)
+        J("paired-guessed-format", {"r1" + ext: (T, 1), "r2" + ext: (T, 1)}, [(["--paired-with", "r2" + ext, "--out", "out" + ext, "r1" + ext], None)],
+          files={"out_R1" + ext: (T, 1), "out_R2" + ext: (T, 1)}),
+        J("several-files", {"a" + ext: (A, 1), "b" + ext: (B, 1), "c" + ext: (A, 1)}, [(["--max-cpu", "4", "a" + ext, "b" + ext, "c" + ext], None)], stdout_records=(A + B + A, 1)),
+        J("no-order", one, [(["--no-order", "in" + ext], None)], stdout_records=(T, 1)),
+        J("force-one-cpu", one, [(["--force-one-cpu", "in" + ext], None)], stdout=(T, 1)),
+        J("max-cpu-1-batch-size-1", one, [(["--max-cpu", "1", "--batch-size", "1", "in" + ext], None)], stdout=(T, 1)),
+        J("max-cpu-8-batch-size-7", one, [(["--max-cpu", "8", "--batch-size", "7", "in" + ext], None)], stdout=(T, 1)),
+        J("beyond-the-read-buffer", {"big" + ext: (T, k)}, [(["big" + ext], None)], stdout=(T, k)),
+        J("beyond-the-read-buffer-to-file", {"big" + ext: (T, k)}, [(["--" + fmt, "--" + fmt + "-output", "--batch-size", "100", "--out", "out" + ext, "big" + ext], None)], files={"out" + ext: (T, k)}),
+        J("output-file-truncated", {"big" + ext: (T, 3), "small" + ext: (A or T, 1)}, [(["--out", "out" + ext, "big" + ext], None), (["--out", "out" + ext, "small" + ext], None)],
+          files={"out" + ext: (A or T, 1)}),
+        J("empty-input", {"empty" + ext: (b"", 1)}, [(["empty" + ext], None)], stdout=(b"", 1)),
+        J("empty-input-explicit-format", {"empty" + ext: (b"", 1)}, [(["--" + fmt, "empty" + ext], None)], stdout=(b"", 1)),
+        # obiconvert pins its reader / writer worker numbers; a command that does not (obigrep without any criterion passes every
+        # record) runs the computed numbers of CLIReadParallelWorkers / CLIWriteParallelWorkers
+        J("obigrep-everything", one, [(["in" + ext], None)], cmd="obigrep", stdout=(T, 1)),
+        J("obigrep-everything-force-one-cpu", one, [(["--force-one-cpu", "in" + ext], None)], cmd="obigrep", stdout=(T, 1)),
+        J("obigrep-everything-max-cpu-3-to-file", one, [(["--max-cpu", "3", "--out", "out" + ext, "in" + ext], None)], cmd="obigrep", files={"out" + ext: (T, 1)}),
+    ]
+
+
+def job_to_json(job):
+    enc = lambda v: dict(b64=b64(v[0]), times=v[1])
+    return dict(name=job["name"], fmt=job["fmt"], cmd=job.get("cmd", "obiconvert"), inputs={k: enc(v) for k, v in job["inputs"].items()}, steps=[[a, i] for a, i in job["steps"]],
+                expect={k: (enc(v) if isinstance(v, tuple) else {f: enc(x) for f, x in v.items()}) for k, v in job["expect"].items()})
+
+
+def job_from_json(j):
+    dec = lambda d: (unb64(d["b64"]), d["times"])
+    return dict(name=j["name"], fmt=j["fmt"], cmd=j.get("cmd", "obiconvert"), inputs={k: dec(v) for k, v in j["inputs"].items()}, steps=[(a, i) for a, i in j["steps"]],
+                expect={k: (dec(v) if "b64" in v else {f: dec(x) for f, x in v.items()}) for k, v in j["expect"].items()})
+
+
+def cli_run_job(bindir, job, workdir):
+    import shutil, gzip
+    exe = os.path.join(bindir, job.get("cmd", "obiconvert"))
+    d = os.path.join(workdir, job["name"])
+    shutil.rmtree(d, ignore_errors=True)
+    os.makedirs(d)
+    for name, (data, times) in job["inputs"].items():
+        with open(os.path.join(d, name), "wb") as f:
+            f.write(data * times)
+    out = b""
+    for args, stdin in job["steps"]:
+        try:
+            with (open(os.path.join(d, stdin), "rb") if stdin else open(os.devnull, "rb")) as fin:
+                p = subprocess.run([exe] + args, stdin=fin, capture_output=True, timeout=300, cwd=d)
+        except subprocess.TimeoutExpired:
+            return "obiconvert %s: no answer within 300 s" % " ".join(args)
+        if p.returncode != 0:
+            return "obiconvert %s: exit %d (%s)" % (" ".join(args), p.returncode, p.stderr.decode("utf8", "replace")[-200:])
+        out = p.stdout
+
+    def differs(got, want, what):
+        if got != want:
+            first = next((k for k, (a, b) in enumerate(zip(got.split(b"\n"), want.split(b"\n"))) if a != b), None)
+            return "obiconvert %s: %s differs from the text written in process (%d bytes instead of %d, first differing line %s)" % (
+                " ; ".join(" ".join(a) for a, _ in job["steps"]), what, len(got), len(want), first)
+        return None
+    e = job["expect"]
+    why = None
+    if "stdout" in e:
+        why = why or differs(out, e["stdout"][0] * e["stdout"][1], "standard output")
+    if "stdout_records" in e and not why:
+        if records_of(job["fmt"], out) != records_of(job["fmt"], e["stdout_records"][0] * e["stdout_records"][1]):
+            why = "obiconvert %s: the records on standard output are not the records written in process" % " ".join(job["steps"][-1][0])
+    for name, (data, times) in e.get("files", {}).items():
+        if why:
+            break
+        path = os.path.join(d, name)
+        why = differs(open(path, "rb").read(), data * times, "file " + name) if os.path.exists(path) else "obiconvert %s: no file %s" % (" ".join(job["steps"][-1][0]), name)
+    for name, (data, times) in e.get("gunzip", {}).items():
+        if why:
+            break
+        path = os.path.join(d, name)
+        try:
+            why = differs(gzip.open(path, "rb").read(), data * times, "decompressed file " + name)
+        except Exception as ex:
+            why = "obiconvert --compress: %s is not a readable gzip file (%r)" % (name, ex)
+    if not why:
+        shutil.rmtree(d, ignore_errors=True)
+    return why
+
+
+SEARCH_SIZES = (3000, 6000, 0, 600, 60, 20) if not os.environ.get("VERIF_C02_SEARCH") else (300, 300, 0, 100, 10, 5)     # (small search: mutation testing aid)
 
 
 def run(ctx, broken):
     n_rt, n_scan, n_enc = (220, 400, 150) if ctx.quick else (5000, 12000, 3000)
-    cases = gen_cases(ctx, n_rt, n_scan, n_enc)
+    n_read, n_hist, n_file = (90, 12, 14) if ctx.quick else (3000, 300, 150)
+    cases = gen_cases(ctx, n_rt, n_scan, n_enc, n_read, n_hist, n_file)
     scope = 4 if ctx.quick else 6
     ex = exhaustive_scan_cases(scope)
     cases += ex
@@ -1041,7 +1708,32 @@ def run(ctx, broken):
         k = "%s/%s/%s" % (c["mode"], c.get("fmt", "-"), o.get("kind"))
         dist[k] = dist.get(k, 0) + 1
     ctx.cov["distribution"] = dist
-    recs = [r for c in cases if c["mode"] == "rt" for r in c["recs"]]
+    recs = [r for c in cases if c["mode"] in ("rt", "hist", "file") for r in c["recs"]]
+    vals = [(k, v) for r in recs for k, v in r["ann"].items()]
+    hist_steps = [(sh, h) for c, o in zip(cases, obs) if c["mode"] == "hist" for sh, h in zip(c["shifts"], o.get("hist") or [])]
+    ctx.cov["round3_distribution"] = dict(
+        construction_paths={b or "new": sum(1 for r in recs if r.get("build", "") == b) for b in sorted(set(BUILDS))},
+        value_types={t: sum(1 for _, v in vals if v[0] == t) for t in sorted({v[0] for _, v in vals})},
+        own_annotation_keys={k.decode(): sum(1 for kk, _ in vals if kk == k) for k in (b"count", b"taxid", b"landmark_id", b"landmark_coord", b"obitag_ref_index", b"obitag_geomref_index", b"id", b"sequence", b"qualities")},
+        strings_ending_with_backslash=sum(1 for r in recs if any(x.endswith(b"\\") for x in [r["definition"]] + [v[1] for v in r["ann"].values() if v[0] == "str"] + list(r["ann"]))),
+        fastq_records_without_qualities=sum(1 for c in cases if c["mode"] == "rt" and c["fmt"] == "fastq" for r in c["recs"] if not r["qual"]),
+        batches_with_an_empty_record=dict(skip=sum(1 for c in cases if c.get("skip_empty")), refused=sum(1 for c in cases if c.get("expect_fatal"))),
+        records_per_batch_max=max(len(c["recs"]) for c in cases if c["mode"] == "rt"), longest_sequence=max(len(r["seq"]) for r in recs),
+        longest_title_line=max(len(unb64(x["rawdef"])) for c, o in zip(cases, obs) if c["mode"] == "rt" for x in o.get("recs") or []),
+        typed_views=sum(len(x.get("typed") or []) for c, o in zip(cases, obs) if c["mode"] == "rt" for x in o.get("recs") or []),
+        foreign_texts=dict(well_formed=sum(1 for c in cases if c["mode"] == "read" and not c.get("why")),
+                           defects={w: sum(1 for c in cases if c["mode"] == "read" and c.get("why") == w) for w in sorted(set(BAD_FASTA + BAD_FASTQ))},
+                           refused=sum(1 for c, o in zip(cases, obs) if c["mode"] == "read" and o.get("kind") == "fatal")),
+        offset_histories=dict(cases=sum(1 for c in cases if c["mode"] == "hist"), steps=len(hist_steps), offsets=sorted({sh for sh, _ in hist_steps}),
+                              steps_outside_14_172=sum(1 for sh, _ in hist_steps if not shift_in_domain(sh)),
+                              outside_and_reader_died_or_changed=sum(1 for sh, h in hist_steps if not shift_in_domain(sh) and h.get("err"))),
+        files=dict(cases=sum(1 for c in cases if c["mode"] == "file"), append=sum(1 for c in cases if c["mode"] == "file" and c.get("append")),
+                   compressed=sum(1 for c in cases if c["mode"] == "file" and c.get("compress")),
+                   batch_sizes=sorted({c.get("batch_size") for c in cases if c["mode"] == "file"})),
+        int_nature=dict(note="outside the property (numbers are compared by value): an integer attribute is a float64 after the read (dead store in _parse_json_header_); "
+                             "GetStringAttribute / fmt.Sprint show it from 1e6 on (1000000 -> 1e+06); the written text is the same",
+                        string_view_changed=sum(1 for c, o in zip(cases, obs) if c["mode"] == "rt" and o.get("typed0") and len(o["typed0"]) == len(o.get("recs") or [])
+                                                for t0, x in zip(o["typed0"], o["recs"]) for a, b in zip(t0, x.get("typed") or []) if a["k"] == b["k"] and a.get("i") is not None and a.get("s") != b.get("s"))))
 
     def blob_of(v):
         t = v[0]
@@ -1051,6 +1743,8 @@ def run(ctx, broken):
             return b"".join(v[1].keys())
         if t == "mapstr":
             return b"".join(k + x for k, x in v[1].items())
+        if t == "mapintstr":
+            return b"".join(v[1].values())
         if t == "map":
             return b"".join(k + blob_of(x) for k, x in v[1].items())
         if t == "list":
@@ -1088,7 +1782,7 @@ def run(ctx, broken):
     ctx.cov.setdefault("timing_s", {})["cli"] = round(time.time() - t0, 1)
     if mism and not ctx.violations:
         # model != code but the direct oracle is satisfied on those inputs: search harder through the oracle
-        more = gen_cases(ctx, 3000, 6000, 0)
+        more = gen_cases(ctx, *SEARCH_SIZES)
         run_cases(ctx, more, [], "search", correspond_too=False)
         if not ctx.violations:
             i, kind = mism[0]
@@ -1099,6 +1793,12 @@ def run(ctx, broken):
 
 
 def replay(ctx, rp):
+    if rp.get("kind") == "cli3":
+        import vlib
+        why = cli_run_job(rp["exe"], job_from_json(rp["job"]), os.path.join(vlib.BUILD, "c02_cli3_replay"))
+        print("replay: job", rp["job"]["name"], "->", why or "as expected")
+        print("recorded reason:", rp.get("why"))
+        return
     if rp.get("kind") == "cli":
         path = os.path.join(os.path.dirname(ctx.replay_path("x")), "cli_replay_input")
         open(path, "wb").write(unb64(rp["input_b64"]))
